@@ -124,7 +124,7 @@ impl Property for C07 {
         }
     }
     fn exhaustive_part(&self, _q: bool) -> Option<String> {
-        Some("every boundary sequence number x every operation of the 46-operation alphabet (single step)".into())
+        Some("every boundary sequence number x every operation of the alphabet (single step); all ordered pairs of alphabet operations (the same call twice included) from seq 7 and 255".into())
     }
     fn enumerate(&self, quick: bool) -> Box<dyn Iterator<Item = Case> + Send + '_> {
         let fams: Vec<FamId> = if quick { vec![FamId::K256, FamId::Ed] } else { ALL_FAMS.to_vec() };
@@ -152,7 +152,26 @@ impl Property for C07 {
             let seq = wire::gen_seq(&mut c);
             Case::Hist(History { fam, keys: history::exhaustive_keys(fam), init: Init::Decoded { seq, pairs: vec![] }, ops: vec![Op::Redecode, Op::SetSeq { seq: wire::gen_seq(&mut c), k: 0 }, Op::Redecode], fault_at: None })
         });
-        Box::new(single.chain(rt))
+        // all pairs of alphabet operations (the same call twice included) from two starting numbers
+        let pairs = (if quick { vec![FamId::K256] } else { ALL_FAMS.to_vec() }).into_iter().flat_map(|fam| {
+            let keys = history::exhaustive_keys(fam);
+            let alpha = history::alphabet(fam);
+            let n = alpha.len();
+            [7u64, 255].into_iter().flat_map(move |s| {
+                let keys = keys.clone();
+                let alpha = alpha.clone();
+                (0..n * n).map(move |ij| {
+                    Case::Hist(History {
+                        fam,
+                        keys: keys.clone(),
+                        init: Init::Decoded { seq: s, pairs: vec![(b"ip".to_vec(), rlp::encode_str(&[1, 2, 3, 4])), (b"udp".to_vec(), rlp::encode_uint(9))] },
+                        ops: vec![alpha[ij / n].clone(), alpha[ij % n].clone()],
+                        fault_at: None,
+                    })
+                })
+            })
+        });
+        Box::new(single.chain(rt).chain(pairs))
     }
     fn gen(&self, c: &mut Choices) -> Case {
         Case::Hist(history::gen_history(c, None))
